@@ -11,5 +11,6 @@ CONSTANTS Kinds = {"plain", "mixed", "enc", "root"}
           CoreServers = {"none", "rel", "relslash", "relroot", "abs", "absvar", "two", "psfirst", "pslast", "relpfx", "abspfx"}
           Slice = 0
           Seed = 1
+          DesignAll = TRUE
 INVARIANTS DesignOK Emit
 CHECK_DEADLOCK FALSE
